@@ -30,6 +30,28 @@ var (
 
 const opID = 0x0102030405060708
 
+// envelopes handed out earlier (by EncodeSignedSSVMessage directly or through Broadcast) together with a private
+// copy of what they contained when they were returned: wrapping another message later must not change them
+type heldEnv struct {
+	ref, want []byte
+	line      string
+}
+
+var held []heldEnv
+
+func holdEnv(run *hx.Run, e []byte, line string) {
+	for _, h := range held {
+		if !bytes.Equal(h.ref, h.want) {
+			run.Violate("C18/envelope-changed-by-later-encode", "an envelope returned earlier no longer unwraps to its parts after a later wrap", h.line, line)
+			break
+		}
+	}
+	held = append(held, heldEnv{ref: e, want: append([]byte(nil), e...), line: line})
+	if len(held) > 6 {
+		held = held[1:]
+	}
+}
+
 func joinHex(ss []string) string {
 	o := make([]string, len(ss))
 	for i, s := range ss {
@@ -191,8 +213,9 @@ func main() {
 		case 11:
 			// string produced by the real encoder, fed back (round-trip direction the node uses)
 			v := make([]byte, 128)
+			dens := r.Pick(0, 50, 50, 100)
 			for j := range v {
-				if r.Chance(50) {
+				if r.Chance(dens) {
 					v[j] = 1
 				}
 			}
@@ -295,6 +318,9 @@ func doOp(run *hx.Run, w []string) {
 				run.Violate("C18/broadcast-envelope", hx.Sprintf("key %x: envelope does not unwrap to message/id/valid signature", pk), line)
 			}
 		}
+		if len(data) == 1 {
+			holdEnv(run, data[0], line)
+		}
 		run.Seen(hx.Sprintf("pub:%s:%v", raw[0], net == netSigned))
 		run.Emit(line, joinHex(full))
 	case "subtopics":
@@ -337,8 +363,10 @@ func doOp(run *hx.Run, w []string) {
 				run.Violate("C18/envelope-roundtrip", hx.Sprintf("msg %x id %d sig %x…", msg, id, sig[:4]), line)
 			}
 		}
+		want := hx.Hex(e)
+		holdEnv(run, e, line)
 		run.Seen(hx.Sprintf("enc:%d:%d", len(sig), hx.Min(len(msg), 9)))
-		run.Emit(line, hx.Hex(e))
+		run.Emit(line, want)
 	case "dec":
 		e := unhex(w[1])
 		gm, gid, gs, err := commons.DecodeSignedSSVMessage(e)
@@ -372,7 +400,16 @@ func doOp(run *hx.Run, w []string) {
 		if err != nil {
 			run.Emit(line, "err")
 		} else {
-			run.Emit(line, hx.Hex(d))
+			obs := hx.Hex(d)
+			// the parsed vector belongs to the caller: editing it must not change what a later parse returns
+			for i := range d {
+				d[i] ^= 1
+			}
+			d2, err2 := records.Subnets{}.FromString(s)
+			if err2 != nil || hx.Hex(d2) != obs {
+				run.Violate("C18/subnets-fromstring-result-shared", hx.Sprintf("parsing %q again after editing the first result gives a different vector", s), line)
+			}
+			run.Emit(line, obs)
 		}
 	case "alltopics":
 		run.Emit(line, joinHex(commons.Topics()))
